@@ -406,6 +406,68 @@ class PX:
             except _Continue:
                 continue
 
+    # -- match statement
+    def s_Match(self, st, fr):
+        subj = self.ev(st.subject, fr)
+        for case in st.cases:
+            binds = {}
+            if self.truth(self._pattern(case.pattern, subj, binds, fr), fr, case.pattern):
+                fr.locals.update(binds)
+                if case.guard is not None and not self.truth(self.ev(case.guard, fr), fr, case.guard):
+                    continue
+                self.exec_block(case.body, fr)
+                return
+
+    def _pattern(self, pat, v, binds, fr):
+        """True / False / Sym(condition): does value v match the pattern? captures go to binds."""
+        if isinstance(pat, ast.MatchValue):
+            return self.compare(ast.Eq(), v, self.ev(pat.value, fr), fr, pat)
+        if isinstance(pat, ast.MatchSingleton):
+            return self.compare(ast.Is(), v, pat.value, fr, pat)
+        if isinstance(pat, ast.MatchAs):
+            ok = True if pat.pattern is None else self._pattern(pat.pattern, v, binds, fr)
+            if pat.name is not None:
+                binds[pat.name] = v
+            return ok
+        if isinstance(pat, ast.MatchOr):
+            for sub in pat.patterns:
+                r = self._pattern(sub, v, binds, fr)
+                if isinstance(r, Sym):
+                    r = self.truth(r, fr, sub)
+                if r:
+                    return True
+            return False
+        if isinstance(pat, ast.MatchClass) and not pat.patterns:
+            r = self.isinstance_(v, self.ev(pat.cls, fr), fr, pat)
+            if isinstance(r, Sym):
+                r = self.truth(r, fr, pat)
+            if not r:
+                return False
+            for name, sub in zip(pat.kwd_attrs, pat.kwd_patterns):
+                q = self._pattern(sub, self.getattr(v, name, fr, pat), binds, fr)
+                if isinstance(q, Sym):
+                    q = self.truth(q, fr, sub)
+                if not q:
+                    return False
+            return True
+        if isinstance(pat, ast.MatchSequence) and not any(isinstance(x, ast.MatchStar) for x in pat.patterns):
+            if isinstance(v, (list, tuple)):
+                if len(v) != len(pat.patterns):
+                    return False
+                for sub, x in zip(pat.patterns, v):
+                    q = self._pattern(sub, x, binds, fr)
+                    if isinstance(q, Sym):
+                        q = self.truth(q, fr, sub)
+                    if not q:
+                        return False
+                return True
+            if isinstance(v, Sym):
+                for i, sub in enumerate(pat.patterns):
+                    self._pattern(sub, self.sym_index(v, i), binds, fr)
+                return Sym(f"(len({v.tag}) == {len(pat.patterns)})")
+            return False
+        raise Unsupported(f"{fr.mod}:{getattr(pat, 'lineno', '?')} match pattern {type(pat).__name__}")
+
     def iter_values(self, it, target, fr, node):
         """Concrete list of loop elements, or fork on the number of abstract elements."""
         if isinstance(it, (list, tuple, set, frozenset, range, bytes, bytearray, str)):
